@@ -12,7 +12,7 @@ class P(piperun.PipeProperty):
     def relevant(self, p):
         return p['op'] != 'cycle'
 
-    source_modes = ('pickle', 'pickle', 'wu', 'copy')
+    source_modes = ('pickle', 'pickle', 'wu', 'copy', 'pickle', 'from', 'from_dataset')
 
     def oracle(self, p, obs):
         return oracles.c02(p, obs)
